@@ -72,10 +72,21 @@ class ArrayCoherence(flow.Flow):
     def loop(self, s, st):
         k = s["k"]
         info = None
-        if k == "For" and is_node(s.get("cond")) and s["cond"]["k"] == "Binary" and s["cond"]["op"] in ("<", "!=", "<="):
-            l, r = _peel(s["cond"]["l"]), s["cond"]["r"]
-            if is_node(l) and l["k"] == "Ref":
-                info = (l["id"], self.render(_strip(r)), r, s["cond"]["op"])
+        cnd = s.get("cond") if k == "For" else None
+        conj = []
+        work = [cnd] if is_node(cnd) else []
+        while work:  # `i < a && i < b`: every conjunct bounds the loop; the first one on the loop variable names the bound
+            c_ = work.pop(0)
+            if is_node(c_) and c_["k"] == "Binary" and c_["op"] == "&&":
+                work[:0] = [c_["l"], c_["r"]]
+            elif is_node(c_):
+                conj.append(c_)
+        for c_ in conj:
+            if c_["k"] == "Binary" and c_["op"] in ("<", "!=", "<="):
+                l, r = _peel(c_["l"]), c_["r"]
+                if is_node(l) and l["k"] == "Ref":
+                    info = (l["id"], self.render(_strip(r)), r, c_["op"], self.render(cnd))
+                    break
         self.loops.append(info)
         try:
             return super().loop(s, st)
